@@ -60,7 +60,78 @@ func stringParamOf(v ssa.Value) *ssa.Parameter {
 
 // AnalyseNeighbourOp decides NEIGH-1..4 for fn.
 func AnalyseNeighbourOp(fn *ssa.Function, spec NeighSpec, cfg ShapeConfig) ShapeResult {
+	return analyseNeighbourOp(fn, spec, cfg, 0)
+}
+
+// neighbourDelegate: every result of fn is the result of one static call to a same-package function with a body
+// (the shared implementation of two exported operations); nil otherwise.
+func neighbourDelegate(fn *ssa.Function) *ssa.Call {
+	var call *ssa.Call
+	ok := true
+	ssau.AllInstrs(fn, func(in ssa.Instruction) {
+		ret, isRet := in.(*ssa.Return)
+		if !isRet || len(ret.Results) == 0 {
+			return
+		}
+		os := valueOrigins(ret.Results[0])
+		if len(os) != 1 {
+			ok = false
+			return
+		}
+		c, isCall := os[0].(*ssa.Call)
+		if !isCall {
+			ok = false
+			return
+		}
+		g := c.Call.StaticCallee()
+		if g == nil || len(g.Blocks) == 0 || g.Pkg == nil || g.Pkg != fn.Pkg || g == fn || (call != nil && call != c) {
+			ok = false
+			return
+		}
+		call = c
+	})
+	if !ok {
+		return nil
+	}
+	return call
+}
+
+func analyseNeighbourOp(fn *ssa.Function, spec NeighSpec, cfg ShapeConfig, depth int) ShapeResult {
 	res := ShapeResult{Fn: fn, Form: "neighbour"}
+	if call := neighbourDelegate(fn); call != nil && depth < 2 {
+		// the operation hands its parameters to a shared implementation: the implementation is judged in
+		// place of the body, and the hand-over is judged here (same mesh, same attribute, every parameter passed on)
+		g := call.Call.StaticCallee()
+		sub := analyseNeighbourOp(g, spec, cfg, depth+1)
+		res.Form = "neighbour (through " + g.Name() + ")"
+		res.Findings = append(res.Findings, sub.Findings...)
+		for i, a := range call.Call.Args {
+			if i >= len(g.Params) {
+				break
+			}
+			gp := g.Params[i]
+			switch {
+			case ssau.IsNamed(gp.Type(), cfg.ModelingPath, "Mesh"):
+				okM, why := isMeshParamOrigin(a, fn, cfg.ModelingPath)
+				res.add("NEIGH-1", okM, call, "mesh handed to "+g.Name()+": "+why)
+			case isStringType(gp.Type()) && spec.TargetConst == "":
+				res.add("NEIGH-1", stringParamOf(a) != nil, call, "attribute handed to "+g.Name()+" is the operation's attribute parameter")
+			}
+		}
+		for _, p := range fn.Params {
+			if ssau.IsNamed(p.Type(), cfg.ModelingPath, "Mesh") || isStringType(p.Type()) {
+				continue
+			}
+			reaches := false
+			for _, a := range call.Call.Args {
+				if backward(a, true)[p] {
+					reaches = true
+				}
+			}
+			res.add("NEIGH-3", reaches, call, "parameter "+p.Name()+map[bool]string{true: " is handed on to " + g.Name(), false: " is not handed on to " + g.Name() + ": the operation ignores it"}[reaches])
+		}
+		return res
+	}
 	var dst *ssa.MakeSlice
 	var srcIter ssa.Value
 	nret := 0
@@ -276,7 +347,7 @@ func AnalyseNeighbourOp(fn *ssa.Function, spec NeighSpec, cfg ShapeConfig) Shape
 			ia := st.Addr.(*ssa.IndexAddr)
 			idx := ia.Index
 			nl, bad := 0, 0
-			for d := range backward(st.Val, false) {
+			for d := range backwardSameIteration(st.Val, fn) {
 				call, ok := d.(*ssa.Call)
 				if !ok {
 					continue
@@ -358,4 +429,34 @@ func cornerDesc(ok bool, a, b int64) string {
 		return "?"
 	}
 	return "P" + itoa(int(a)+1) + "−P" + itoa(int(b)+1)
+}
+
+func isStringType(t types.Type) bool {
+	b, ok := t.Underlying().(*types.Basic)
+	return ok && b.Kind() == types.String
+}
+
+// backwardSameIteration: the values v is computed from without crossing a loop-carried φ — joins of an if / else
+// inside one iteration are followed, loop-header φs are not.
+func backwardSameIteration(v ssa.Value, fn *ssa.Function) map[ssa.Value]bool {
+	headers := map[*ssa.BasicBlock]bool{}
+	for _, l := range ssau.Loops(fn) {
+		headers[l.Header] = true
+	}
+	out := map[ssa.Value]bool{}
+	work := []ssa.Value{v}
+	for len(work) > 0 {
+		x := work[len(work)-1]
+		work = work[:len(work)-1]
+		for d := range backward(x, false) {
+			if out[d] {
+				continue
+			}
+			out[d] = true
+			if ph, ok := d.(*ssa.Phi); ok && !headers[ph.Block()] {
+				work = append(work, ph.Edges...)
+			}
+		}
+	}
+	return out
 }
